@@ -8,6 +8,7 @@ import (
 	"strings"
 	"testing"
 
+	"github.com/akrennmair/updog"
 	"github.com/akrennmair/updog/verifharness/evid"
 	"github.com/akrennmair/updog/verifharness/fix"
 	"github.com/akrennmair/updog/verifharness/gen"
@@ -77,8 +78,19 @@ func oracle(c *Case) (stats, error) {
 		return st, fmt.Errorf("open reference copy: %v", err)
 	}
 	defer func() { fix.Safe(ref.Close) }()
+	// every result object handed out is kept and looked at again at the end:
+	// a later query must not change a result that was already returned
+	type kept struct {
+		step int
+		res  *updog.Result
+		snap model.Result
+	}
+	var keptResults []kept
 	for step, q := range c.History {
 		res, err := fix.Exec(idx, fix.NewQuery(q.Expr, q.GroupBy))
+		if err == nil && res != nil {
+			keptResults = append(keptResults, kept{step, res, fix.FromResult(res)})
+		}
 		if step%8 == 7 {
 			// literally "a freshly opened index without cache"
 			fix.Safe(ref.Close)
@@ -100,6 +112,11 @@ func oracle(c *Case) (stats, error) {
 		}
 		if cerr := fix.CompareOutcome(d, q.Expr, q.GroupBy, res, err); cerr != nil {
 			return st, fmt.Errorf("step %d %s GROUP BY %+q: %v", step, q.Expr.String(), q.GroupBy, cerr)
+		}
+	}
+	for _, k := range keptResults {
+		if now := fix.FromResult(k.res); !reflect.DeepEqual(now, k.snap) {
+			return st, fmt.Errorf("the result returned at step %d (%s) was changed by later queries: it was %s, now it reads %s", k.step, c.History[k.step].Expr.String(), short(k.snap), short(now))
 		}
 	}
 	if cc != nil {
